@@ -688,17 +688,21 @@ func getTableDataRange(dt byte, table []byte, start, end []byte) ([]engine.CRang
 }
 
 func getTableMetaRange(dt byte, table []byte, start, end []byte) ([]byte, []byte, error) {
-	tableStart := append(table, tableStartSep)
+	// build the bounds in memory of our own: appending to the caller's table slice would write into
+	// whatever lies behind it in the caller's buffer
+	tableStart := make([]byte, 0, len(table)+1+len(start)+len(end))
+	tableStart = append(tableStart, table...)
+	tableStart = append(tableStart, tableStartSep)
 	tableStart = append(tableStart, start...)
 	minMetaKey, err := encodeScanKey(dt, tableStart)
 	if err != nil {
 		return nil, nil, err
 	}
-	tableStart = tableStart[:0]
+	tableStart = append(tableStart[:0], table...)
 	if end == nil {
-		tableStart = append(table, tableStartSep+1)
+		tableStart = append(tableStart, tableStartSep+1)
 	} else {
-		tableStart = append(table, tableStartSep)
+		tableStart = append(tableStart, tableStartSep)
 		tableStart = append(tableStart, end...)
 	}
 	maxMetaKey, err := encodeScanKey(dt, tableStart)
